@@ -11,6 +11,18 @@ ASSUMPTIONS = ["'flattened to exactly zero' needs no deposit in transit (finding
 
 def run(ctx):
     corrs = tstream.make_corrs(ctx)
+    # a futures account that STARTS with positions, as the first run of a fresh process (no earlier run has created a futures position there)
+    import random, bundle as B, trading
+    rnd = random.Random(ctx.rnd.random())
+    for _ in range(ctx.n(2, 40)):
+        seed = rnd.randrange(1, 10 ** 6)
+        r2 = random.Random(seed)
+        S = B.gen_market(r2, ndays=r2.randrange(6, 12), with_future=True, n_stocks=0, opts={"p_expire": 0.2})
+        cfgk = trading.gen_config(r2, S, {"no_signal": True, "p_init_pos": 1.0})
+        if "init_positions" not in (cfgk.get("base_extra") or {}):
+            f0 = S["futures"][0]
+            cfgk["base_extra"] = dict(cfgk.get("base_extra") or {}, init_positions="%s:%d" % (f0["id"], r2.choice([2, 3, -2])))
+        tstream.fresh_process_run(ctx, S, cfgk, seed, ["c02_monitor"], "futures account starting from configured positions %s" % cfgk["base_extra"]["init_positions"])
     tstream.stream(ctx, ctx.n(50, 2500), corrs, [monitors.c02_monitor], acct_types=("FUTURE",),
                    market_opts=lambda k: {"with_future": True, "n_stocks": 0 if k % 2 else None, "opts": {"p_expire": 0.6}}, cfg_opts=lambda k: {"p_init_pos": 0.25, "pf_roundtrip": k % 3 == 2})
 
